@@ -102,6 +102,10 @@ Definition run_C04_full (cmd : Z) (ints : list Z) (arrs : list (list Q)) : optio
   | 24%Z => Some (state_out K R L (explicit_terms_of_diag g c grav orog (diag04 ints arrs)))
   | 25%Z => let n := (2 * K + 1)%nat in
             Some (SHT.tab3 L n n (fun l => implicit_matrix c eta (Deriv.lap_eig L (hr g) l)))
+  (* moist classes: ints[6] = 1 for the cloud class; arrs[7] = [...; eta; R_vapor; Cp_vapor]; tracer 0 = specific_humidity
+     (cloud: 1, 2 = cloud liquid / ice) *)
+  | 26%Z => let m := mkMoist (scalar arrs 7 6) (scalar arrs 7 7) in
+            Some (state_out K R L (explicit_terms_full_moist g (intb ints 6) c m grav orog (state04 ints arrs)))
   | _ => None
   end.
 
